@@ -212,7 +212,7 @@ def compare(s, res):
     """-> list of (signature, detail)"""
     problems = []
     if res.errors:
-        return [("compile:" + (res.errors[0].get("code") or "") + ":" + res.errors[0]["message"][:80],
+        return [(res.compile_sig(s["key"]),
                  "\n".join(res.brief_errors()[:6]))]
     if res.crashed:
         return [("crash", res.crashed)]
